@@ -1,13 +1,14 @@
 (* conv: io n z *)
 (* C17 driver.  One case per line:
-     conv fe fw hr er  <events: n ev...>  post
+     conv fe fw hook er  <events: n ev...>  post       (hook: 0 ok | 1 raises | 2 slow | 3 awaits)
    events: 0 = Send | 1 i = UserCancel | 2 0 i 0 v = SrvWrite (Reply i (RResult v))
          | 2 0 i 1 c = SrvWrite (Reply i (RError c)) | 2 1 = SrvWrite BadFrame | 2 2 = SrvWrite Junk
+         | 2 3 i = SrvWrite (BadReply i)
          | 3 rc t = ProcExit rc tail(0 clean,1 part header,2 part body,3 junk)
          | 4 = ReaderRun | 5 = ServerExitTask | 6 = Stop
    The events are the conversation up to and including everything the caller did before it
    yields; the driver appends the two tasks in both orders (A = reader first, B = exit watcher
-   first), observes, then lets the caller send `post` more requests and call stop() and lets the
+   first; the exit watcher gets a second run, which a suspending hook needs), observes, then lets the caller send `post` more requests and call stop() and lets the
    tasks run again, and observes again.
    Output: guard, expectations (conversation scan), then for A and B:
      obs1 obs2 post-futures spec_ok(obs1)
@@ -22,6 +23,7 @@ let next_event () =
                   | 0 -> let v = next_n () in SrvWrite (Reply (i, RResult v))
                   | _ -> let c = next_z () in SrvWrite (Reply (i, RError c)))
           | 1 -> SrvWrite BadFrame
+          | 3 -> let i = next_n () in SrvWrite (BadReply i)
           | _ -> SrvWrite Junk)
   | 3 -> let rc = next_z () in
          let t = (match next_int () with 0 -> TClean | 1 -> TPartHeader | 2 -> TPartBody | _ -> TJunk) in
@@ -32,8 +34,9 @@ let next_event () =
   | _ -> failwith "bad event"
 let next_cfg () =
   let fe = next_int () = 1 in let fw = next_int () = 1 in
-  let hr = next_int () = 1 in let er = next_int () = 1 in
-  { fix_eof = fe; fix_wrap = fw; hook_raises = hr; errhook_raises = er }
+  let hk = (match next_int () with 0 -> HookOk | 1 -> HookRaises | 2 -> HookSlow | _ -> HookAwaits) in
+  let er = next_int () = 1 in
+  { fix_eof = fe; fix_wrap = fw; hook = hk; errhook_raises = er }
 let put_fstate = function
   | Pending -> put_int 0; put_int 0
   | Resolved v -> put_int 1; put_n v
@@ -46,7 +49,7 @@ let put_stop = function
   | StopRaises e -> put_int 1; put_exn e
   | StopBlocked -> put_int 2; put_int 0
 let put_obs o =
-  put_list (fun (i, f) -> put_n i; put_fstate f) o.o_futs; put_list put_z o.o_hooks; put_bool o.o_stopped;
+  put_list (fun (i, f) -> put_n i; put_fstate f) o.o_futs; put_list (fun (rc, d) -> put_z rc; put_bool d) o.o_hooks; put_bool o.o_stopped;
   put_stop o.o_stop; put_n o.o_errs
 let put_expect (i, e) = put_n i; match e with
   | EExit -> put_int 0; put_int 0; put_int 0
@@ -62,8 +65,8 @@ let dispatch = function
     put_bool (spec_ok (conv_expect evs) (observe (run c evs)))
   | "conv" ->
     let c = next_cfg () in let evs = read_list next_event in let post = next_int () in
-    let orders = [[ReaderRun; ServerExitTask]; [ServerExitTask; ReaderRun]] in
-    let later = replicate post Send @ [Stop; ReaderRun; ServerExitTask] in
+    let orders = [[ReaderRun; ServerExitTask; ServerExitTask]; [ServerExitTask; ReaderRun; ServerExitTask]] in
+    let later = replicate post Send @ [Stop; ReaderRun; ServerExitTask; ServerExitTask] in
     let exps = conv_expect (evs @ List.hd orders @ replicate post Send) in
     put_bool (wf_conv (evs @ List.hd orders)); put_list put_expect exps;
     List.iter (fun ord ->
